@@ -80,6 +80,8 @@ EXPECTED_PROBES = [
     "probe.three_levels_occupied", "probe.bloom_false_positive_on_read_path", "probe.scan_nonempty", "probe.trigger_compaction_started",
     "probe.btree_split_during_get", "probe.btree_depth_ge_3", "probe.tx_conflict_abort", "probe.tx_commit_between_reads",
     "probe.tx_overlap", "probe.tx_read_own_write",
+    "probe.sync_api_op_in_history", "probe.preloaded_through_put_sync", "probe.synchronous_flush_in_history",
+    "probe.tx_commit_in_storage_history", "probe.l0_holds_sync_and_generator_flush_tables", "probe.mixed_origin_l0_tables_compacted",
 ]
 SHRINK_SKIP = ("keys", "kind", "strategy", "iso", "klass", "policy")
 
@@ -97,12 +99,21 @@ def _keys(rng):
     return sorted(f"k{i:02d}" for i in rng.sample(range(100), n))
 
 
-def _ops(rng, n_keys, n_ops, mix, scans=True):
+def _ops(rng, n_keys, n_ops, mix, scans=True, sync=False, kv=False):
+    """sync=True mixes the synchronous API and TransactionManager commits (put_sync underneath) into the same history."""
     out = []
     for _ in range(n_ops):
         kind = rng.choices(["put", "delete", "get", "scan"], weights=mix)[0]
         if kind == "scan" and not scans:
             kind = "get"
+        if sync:
+            r = rng.random()
+            if kind == "put":
+                kind = "put_sync" if r < 0.25 else ("txput" if r < 0.37 else "put")
+            elif kind == "get" and r < 0.2:
+                kind = "get_sync"
+            elif kind == "delete" and kv and r < 0.3:
+                kind = "delete_sync"
         op = {"op": kind, "k": rng.randrange(n_keys), "gap_ns": rng.choice(GAP_NS)}
         if kind == "scan":
             lo = rng.randrange(n_keys)
@@ -128,18 +139,18 @@ def gen(rng, tier):
     return _gen_tx(rng)
 
 
-def _clients(rng, n_keys, klass, scans=True):
+def _clients(rng, n_keys, klass, scans=True, sync=False, kv=False):
     cl = []
     if klass == "seq":
-        cl.append({"start_ns": 0, "ops": _ops(rng, n_keys, rng.randint(10, 40), M_MIX, scans)})
+        cl.append({"start_ns": 0, "ops": _ops(rng, n_keys, rng.randint(10, 40), M_MIX, scans, sync, kv)})
     elif klass == "rw":  # dedicated writers and readers
         for _ in range(rng.randint(1, 3)):
-            cl.append({"start_ns": rng.choice(START_NS), "ops": _ops(rng, n_keys, rng.randint(6, 30), W_MIX, scans)})
+            cl.append({"start_ns": rng.choice(START_NS), "ops": _ops(rng, n_keys, rng.randint(6, 30), W_MIX, scans, sync, kv)})
         for _ in range(rng.randint(1, 4)):
-            cl.append({"start_ns": rng.choice(START_NS), "ops": _ops(rng, n_keys, rng.randint(4, 30), R_MIX, scans)})
+            cl.append({"start_ns": rng.choice(START_NS), "ops": _ops(rng, n_keys, rng.randint(4, 30), R_MIX, scans, sync, kv)})
     else:
         for _ in range(rng.randint(2, 8)):
-            cl.append({"start_ns": rng.choice(START_NS), "ops": _ops(rng, n_keys, rng.randint(4, 24), M_MIX, scans)})
+            cl.append({"start_ns": rng.choice(START_NS), "ops": _ops(rng, n_keys, rng.randint(4, 24), M_MIX, scans, sync, kv)})
     return cl
 
 
@@ -155,11 +166,14 @@ def _gen_lsm(rng):
         keys = sorted(set(keys) | {f"k{i:02d}" for i in rng.sample(range(100), rng.randint(1, 4))})
     eng = S.gen_lsm_spec(rng)
     eng["max_levels"] = rng.choice([2, 3, 3, 4, 4, 5])
-    sc = {"kind": "lsm", "klass": f"lsm/{klass}", "seed": rng.getrandbits(32), "keys": keys, "engine": eng,
-          "clients": _clients(rng, len(keys), klass),
+    sync = rng.random() < 0.45  # synchronous API, preload and transaction commits mixed with the generator API
+    sc = {"kind": "lsm", "klass": f"lsm/{klass}" + ("+sync-api" if sync else ""), "seed": rng.getrandbits(32), "keys": keys,
+          "engine": eng, "clients": _clients(rng, len(keys), klass, sync=sync),
           "probe": klass != "seq" and rng.random() < 0.5,
-          "triggers": []}
-    if klass != "seq" and rng.random() < 0.4:
+          "triggers": [], "preload": []}
+    if sync and rng.random() < 0.7:  # enough put_sync calls for 0-3 synchronous flushes before the clients start
+        sc["preload"] = [rng.randrange(len(keys)) for _ in range(rng.randint(1, 3 * min(eng["memtable"], 4) + 2))]
+    if (klass != "seq" and rng.random() < 0.4) or (sync and rng.random() < 0.5):
         sc["triggers"] = sorted(rng.choice(TRIGGER_NS) + rng.choice([0, 10_000, 100_000, 1_100_000]) for _ in range(rng.randint(2, 10)))
     return sc
 
@@ -171,16 +185,21 @@ def _gen_btree(rng):
         keys = sorted(set(keys) | {f"k{i:02d}" for i in rng.sample(range(100), rng.randint(3, 16))})
     eng = {"kind": "btree", "order": rng.choice([3, 3, 4, 5, 6]), "r_us": rng.choice([100, 1000, 1000, 2000]),
            "w_us": rng.choice([0, 500, 2000])}
-    return {"kind": "btree", "klass": f"btree/{klass}", "seed": rng.getrandbits(32), "keys": keys, "engine": eng,
-            "clients": _clients(rng, len(keys), klass), "probe": klass != "seq" and rng.random() < 0.5, "triggers": []}
+    sync = rng.random() < 0.35
+    return {"kind": "btree", "klass": f"btree/{klass}" + ("+sync-api" if sync else ""), "seed": rng.getrandbits(32), "keys": keys,
+            "engine": eng, "clients": _clients(rng, len(keys), klass, sync=sync), "probe": klass != "seq" and rng.random() < 0.5,
+            "triggers": [], "preload": [rng.randrange(len(keys)) for _ in range(rng.randint(0, 8))] if sync else []}
 
 
 def _gen_kv(rng):
     klass = rng.choice(["seq", "mixed"])
     keys = _keys(rng)
     eng = {"kind": "kv", "r_us": rng.choice([0, 100, 1000]), "w_us": rng.choice([0, 500, 5000]), "d_us": rng.choice([0, 500, 5000])}
-    return {"kind": "kv", "klass": f"kv/{klass}", "seed": rng.getrandbits(32), "keys": keys, "engine": eng,
-            "clients": _clients(rng, len(keys), klass, scans=False), "probe": klass != "seq" and rng.random() < 0.5, "triggers": []}
+    sync = rng.random() < 0.35
+    return {"kind": "kv", "klass": f"kv/{klass}" + ("+sync-api" if sync else ""), "seed": rng.getrandbits(32), "keys": keys, "engine": eng,
+            "clients": _clients(rng, len(keys), klass, scans=False, sync=sync, kv=True),
+            "probe": klass != "seq" and rng.random() < 0.5, "triggers": [],
+            "preload": [rng.randrange(len(keys)) for _ in range(rng.randint(0, 4))] if sync else []}
 
 
 TX_GAP_NS = [0, 0, 1_000, 5_000, 20_000, 100_000, 1_000_000, 2_500_000]
@@ -242,7 +261,11 @@ class StoreRun:
                 raise InvalidScenario("client")
             self.clients.append(Client(f"c{i}", i, spec, self))
         self.kicker = S.Kicker("kicker", self.store, self.tracker) if self.is_lsm else None
-        self.entities = ents + self.clients + ([self.kicker] if self.kicker else [])
+        # transaction commits inside a storage history go through put_sync (READ_COMMITTED never aborts)
+        self.tm = TransactionManager("txm", store=self.store, isolation=IsolationLevel.READ_COMMITTED)
+        self.entities = ents + [self.tm] + self.clients + ([self.kicker] if self.kicker else [])
+        self.sync_sst: dict[int, object] = {}   # SSTables created by a synchronous flush/compaction (kept alive)
+        self.mixed_l0: list | None = None
         self.watch = S.LsmWatch(self.store) if self.is_lsm else None
         self.mon = None
         self.flag_states = set()
@@ -251,6 +274,33 @@ class StoreRun:
     # ---- bookkeeping ----------------------------------------------------
     def bump(self, name):
         self.c[name] = 1
+
+    def sync_call(self, fn, *args):
+        """Call a synchronous store API; SSTables that appear during the call come from the synchronous flush path."""
+        if not self.is_lsm:
+            return fn(*args)
+        before = {id(t) for lvl in self.store._levels for t in lvl}
+        out = fn(*args)
+        for lvl in self.store._levels:
+            for t in lvl:
+                if id(t) not in before:
+                    self.sync_sst[id(t)] = t
+                    self.bump("probe.synchronous_flush_in_history")
+        return out
+
+    def preload(self):
+        pre = self.sc.get("preload") or []
+        if not isinstance(pre, list):
+            raise InvalidScenario("preload")
+        for i, ki in enumerate(pre):
+            key = self.keys[S.check_index(ki, len(self.keys))]
+            val = f"p{i}"
+            h = self.hist.invoke("preload", "put", key, val)
+            self.writes[key].append(h)
+            self.sync_call(self.store.put_sync, key, val)
+            self.hist.complete(h)
+        if pre:
+            self.bump("probe.preloaded_through_put_sync")
 
     def fail(self, inv_id, detail, msg):
         if self.violation is None:
@@ -316,6 +366,14 @@ class StoreRun:
             if ph["flush"] >= 2 or len(self.store._immutable_memtables) >= 2:
                 self.bump("probe.overlapping_flushes")
             self.flag_states.add((min(ph["flush"], 2), min(ph["compact"], 2)))
+            l0 = self.store._levels[0]
+            if self.mixed_l0 is None:
+                kinds = {id(t) in self.sync_sst for t in l0}
+                if len(kinds) == 2:
+                    self.mixed_l0 = list(l0)
+                    self.bump("probe.l0_holds_sync_and_generator_flush_tables")
+            elif not self.c.get("probe.mixed_origin_l0_tables_compacted") and not any(t in l0 for t in self.mixed_l0):
+                self.bump("probe.mixed_origin_l0_tables_compacted")
         if self.violation is None and self.sc.get("probe"):
             self.probe_all("get_sync")
         if self.violation is not None:
@@ -364,8 +422,51 @@ class Client(Entity):
             if R.violation is not None:
                 return
             kind = op.get("op")
-            if kind in ("put", "delete", "get"):
+            if kind in ("put", "delete", "get", "put_sync", "get_sync", "delete_sync", "txput"):
                 key = keys[S.check_index(op.get("k"), n)]
+            if kind in ("put_sync", "get_sync", "delete_sync", "txput"):
+                R.bump("probe.sync_api_op_in_history")
+            if kind == "put_sync":
+                val = f"v{self.idx}.{i}"
+                h = hist.invoke(self.idx, "put", key, val)
+                R.writes[key].append(h)
+                R.sync_call(store.put_sync, key, val)
+                hist.complete(h)
+            elif kind == "delete_sync":
+                if not hasattr(store, "delete_sync"):
+                    raise InvalidScenario("store has no delete_sync")
+                h = hist.invoke(self.idx, "delete", key)
+                R.writes[key].append(h)
+                store.delete_sync(key)
+                hist.complete(h)
+            elif kind == "txput":
+                val = f"v{self.idx}.{i}"
+                h = hist.invoke(self.idx, "put", key, val)
+                R.writes[key].append(h)
+                tx = yield from R.tm.begin()
+                yield from tx.write(key, val)
+                before = {id(t) for lvl in store._levels for t in lvl} if R.is_lsm else None
+                ok = yield from tx.commit()
+                if R.is_lsm:
+                    for lvl in store._levels:
+                        for t in lvl:
+                            if id(t) not in before and not any("_compact" in S.gen_chain(g) or "_flush_memtable" in S.gen_chain(g)
+                                                               for g in R.tracker.procs if g.gi_frame is not None and g is not self.gen):
+                                R.sync_sst[id(t)] = t
+                hist.complete(h)
+                R.bump("probe.tx_commit_in_storage_history")
+                if not ok:
+                    R.fail("tx-commit", "read-committed-transaction-aborted", f"READ_COMMITTED transaction writing {key} was aborted")
+            elif kind == "get_sync":
+                h = hist.invoke(self.idx, "get", key)
+                cap = R.capture(key)
+                got = store.get_sync(key)
+                hist.complete(h, got)
+                R.judge("get_sync", key, h["inv"], h["ret"], got, cap, h["id"])
+            if kind in ("put_sync", "get_sync", "delete_sync", "txput"):
+                if R.violation is not None:
+                    return
+                continue
             if kind == "put":
                 val = f"v{self.idx}.{i}"
                 h = hist.invoke(self.idx, "put", key, val)
@@ -490,6 +591,15 @@ def run_store(sc):
         sim.schedule(S.start_event(t, R.kicker, "kick"))
     mon = Monitor(sim, cap=CAP, invariant=R.after_delivery)
     R.mon = mon
+    try:
+        R.preload()
+    except InvalidScenario:
+        raise
+    except Exception as exc:  # noqa: BLE001  (public API, valid arguments)
+        esig = repo_exception_sig(exc)
+        if esig is None:
+            raise
+        return result(sig=f"C14/{esig}", msg=f"put_sync while preloading: {exc!r}", klass=sc.get("klass", sc["kind"]))
     status, payload = run_sim(sim)
     sig = msg = None
     if status == "violation":
